@@ -121,12 +121,20 @@ TExport == /\ IsEvent("export_xml")
 \* were observably equal - a copy and its original - returns the same answers and leaves the second one exactly as it left the first one.
 \* (Userdata is left out of "observably equal": the recorder tags new objects after it has logged them.)
 NoUd(t) == IF t.n = 0 THEN t ELSE [t EXCEPT !.objs = [i \in DOMAIN t.objs |-> [t.objs[i] EXCEPT !.ud = 0]]]
-Results(e) == [x \in DOMAIN e \ {"slot", "topos"} |-> e[x]]
+\* objects the call created may be numbered differently in the two topologies (gp_index is only promised to be unique within a topology,
+\* and a copy does not continue the numbering where its original stood): their gp_index is left out, and so are the XML digest (which
+\* contains it) when there is such an object, and the gp_index the call returns
+NewBlind(t, old) == IF t.n = 0 THEN t
+                    ELSE [t EXCEPT !.objs = [i \in DOMAIN t.objs |-> IF t.objs[i].gp \in old THEN t.objs[i] ELSE [t.objs[i] EXCEPT !.gp = 0]],
+                                   !.xd = IF \A i \in DOMAIN t.objs : t.objs[i].gp \in old THEN t.xd ELSE <<>>]
+Results(e) == [x \in DOMAIN e \ {"slot", "topos", "obj"} |-> e[x]]
 TwinOK == (/\ l > 2 /\ Len(E.topos) = 2
            /\ "slot" \in DOMAIN T[l - 1] /\ T[l - 1].e = E.e /\ T[l - 1].slot # E.slot /\ T[l - 1].args = E.args
            /\ "topos" \in DOMAIN T[l - 2] /\ Len(T[l - 2].topos) = 2 /\ T[l - 2].topos[1].n > 0
            /\ NoUd(T[l - 2].topos[1]) = NoUd(T[l - 2].topos[2]))
-          => (Results(E) = Results(T[l - 1]) /\ E.topos[S] = T[l - 1].topos[T[l - 1].slot + 1])
+          => LET old == GpSet(T[l - 2].topos[1]) IN
+               /\ Results(E) = Results(T[l - 1])
+               /\ NewBlind(E.topos[S], old) = NewBlind(T[l - 1].topos[T[l - 1].slot + 1], old)
 
 \* modifying calls (TopoOps.tla): relation between the projection before and after, then adopt the logged one
 TModify == /\ l <= Len(T) /\ T[l].e \in ModifyingEvents /\ l' = l + 1
